@@ -2,7 +2,7 @@
 from __future__ import annotations
 
 import ast
-from typing import Dict, List, Optional, Set, Tuple
+from typing import Dict, FrozenSet, List, Optional, Set, Tuple
 
 from ..cfg import N, describe_path
 from ..core import Ctx, Ob, rule
@@ -84,6 +84,9 @@ def _before_table(ctx: Ctx, f: Func) -> Dict[str, str]:
                     bs = [b for b in sc.bindings.get(i.id, []) if b.kind == "val" and b.expr is not None]
                     if len(bs) == 1:
                         iv = bs[0].expr
+                    elif len(bs) > 1:
+                        # one insert fed by an index computed case by case: a different algorithm, not read by this table
+                        raise AnalysisError(f"{f.qualname}: the insert position is computed into `{i.id}` by several assignments")
                 good = (m := match("_index_of($$L, before)", iv)) is not None and is_L(m["$$L"])
                 eq = (m := match("$$L.index(before)", iv)) is not None and is_L(m["$$L"])
                 acts.append((n, "idx = position of before in L; L.insert(idx, node)" if good else ("idx = L.index(before) [==]; L.insert(idx, node)" if eq else f"L.insert({norm(i)}, node)")))
@@ -162,7 +165,11 @@ def sib_add(ctx: Ctx) -> List[Ob]:
         "else": "L.append(node)",
     }
     for f in (fa, fb):
-        tb = _before_table(ctx, f)
+        try:
+            tb = _before_table(ctx, f)
+        except AnalysisError as e_:
+            obs.append(ctx.tri("SIB-ADD", ["C04"], f, "position dispatch on `before` (None/False->append, True->0, int->insert, node->insert at its position)", None, None, str(e_)))
+            continue
         for case, act in want.items():
             got = tb.get(case)
             ok = got == act
@@ -190,68 +197,80 @@ def sib_add(ctx: Ctx) -> List[Ob]:
 VERDICTS = ["falsy", "true", "select", "skip_keep_self", "skip", "stop"]
 
 
-def _verdicts_of(ctx: Ctx, f: Func, node: ast.AST, resv: str) -> Tuple[Set[str], List[Tuple[ast.AST, bool]]]:
-    """Verdict classes under which `node` runs, read off its path conditions on
-    the verdict variable; plus the remaining (non-verdict) conditions."""
-    from ..pat import match
-    from .util import path_conds
+_ALLV = frozenset({"falsy", "true", "select", "stop", "skip_keep_self", "skip"})
 
-    pcs = path_conds(ctx, f, node)
-    pos: Set[str] = set()
-    neg: Set[str] = set()
-    and_self: Optional[bool] = None
+
+def _atom_verdicts(t: str) -> Optional[FrozenSet[str]]:
+    """Verdict classes for which the atom (text, verdict variable written `res`) is true; None: not a verdict atom."""
+    if t in ("res in (None, False)", "res in (False, None)", "res is None or res is False", "res is False or res is None", "not res"):
+        return frozenset({"falsy"})
+    if t in ("res is None", "res is False"):
+        return frozenset({"falsy"})  # (each is one half of the falsy verdict)
+    if t == "res is True":
+        return frozenset({"true"})
+    if t == "isinstance(res, SelectBranch)":
+        return frozenset({"select"})
+    if t == "isinstance(res, StopTraversal)":
+        return frozenset({"stop"})
+    if t == "isinstance(res, SkipBranch)":
+        return frozenset({"skip_keep_self", "skip"})
+    if t == "res.and_self is False":
+        return _ALLV - {"skip"}
+    if t == "res.and_self is True":
+        return _ALLV - {"skip_keep_self"}
+    if t == "res":
+        return _ALLV - {"falsy"}
+    return None
+
+
+def _verdicts_of(ctx: Ctx, f: Func, node: ast.AST, resv: str) -> Tuple[Set[str], List[Tuple[ast.AST, bool]]]:
+    """Verdict classes under which `node` runs: the intersection, over its path
+    conditions on the verdict variable, of the classes each condition admits
+    (a disjunction admits the union of its disjuncts); plus the remaining
+    (non-verdict) conditions.  Conditions on the verdict that are not
+    understood come back as '?<text>' classes."""
+    from .util import path_conds
+    import re as _re
+
+    def txt(e: ast.AST) -> str:
+        t = norm(e)
+        return _re.sub(rf"\b{_re.escape(resv)}\b", "res", t) if resv != "res" else t
+
+    def classes(e: ast.AST) -> Optional[FrozenSet[str]]:
+        if isinstance(e, ast.BoolOp):
+            parts = [classes(v) for v in e.values]
+            if any(p is None for p in parts):
+                return None
+            out = set(parts[0])
+            for p in parts[1:]:
+                out = (out | p) if isinstance(e.op, ast.Or) else (out & p)
+            return frozenset(out)
+        if isinstance(e, ast.UnaryOp) and isinstance(e.op, ast.Not):
+            c = classes(e.operand)
+            return None if c is None else _ALLV - c
+        return _atom_verdicts(txt(e))
+
+    allowed: Set[str] = set(_ALLV)
     rest: List[Tuple[ast.AST, bool]] = []
     unknown: Set[str] = set()
-    for e, pol in pcs:
-        t = norm(e).replace(resv, "res") if resv != "res" else norm(e)
-        cls = None
-        if t == "res":
-            # `if not res:` - the falsy verdict is the atom being false
-            if pol:
-                rest.append((e, pol))
-            else:
-                pos.add("falsy")
-            continue
-        if t in ("res in (None, False)", "res in (False, None)", "res is None or res is False", "res is False or res is None"):
-            cls = "falsy"
-        elif t == "res is True":
-            cls = "true"
-        elif t == "isinstance(res, SelectBranch)":
-            cls = "select"
-        elif t == "isinstance(res, StopTraversal)":
-            cls = "stop"
-        elif t == "isinstance(res, SkipBranch)":
-            cls = "skipany"
-        elif t == "res.and_self is False":
-            and_self = pol
-            continue
-        elif t == "res.and_self is True":
-            and_self = not pol
-            continue
-        elif t == "res.and_self":
-            # truthiness: the default and_self=None is falsy too - not the documented `and_self is False` test
+    constrained = False
+    for e, pol in path_conds(ctx, f, node):
+        t = txt(e)
+        if t == "res.and_self":
             unknown.add(("not " if not pol else "") + "res.and_self  [truthiness: the default SkipBranch() has and_self=None, which must drop the node]")
             continue
-        elif "res" in [x.id for x in ast.walk(e) if isinstance(x, ast.Name)] or (resv in [x.id for x in ast.walk(e) if isinstance(x, ast.Name)]):
-            if pol:
-                unknown.add(t)
+        c = classes(e)
+        if c is None:
+            if "res" in [x.id for x in ast.walk(e) if isinstance(x, ast.Name)] or resv in [x.id for x in ast.walk(e) if isinstance(x, ast.Name)]:
+                if pol:
+                    unknown.add(t)
+            else:
+                rest.append((e, pol))
             continue
-        if cls is None:
-            rest.append((e, pol))
-            continue
-        (pos if pol else neg).add(cls)
-    out: Set[str] = set()
-    if "skipany" in pos:
-        out |= {"skip_keep_self"} if and_self is True else ({"skip"} if and_self is False else {"skip_keep_self", "skip"})
-    out |= pos - {"skipany"}
+        constrained = True
+        allowed &= (c if pol else (_ALLV - c))
+    out: Set[str] = set(allowed) if (constrained or not unknown) else set()
     out |= {"?" + u for u in unknown}
-    if not pos and not unknown:
-        # only negative knowledge: every verdict class that is not excluded
-        allv = {"falsy", "true", "select", "stop", "skip_keep_self", "skip"}
-        excl = set(neg)
-        if "skipany" in neg:
-            excl |= {"skip_keep_self", "skip"}
-        out = allv - excl
     return out, rest
 
 
@@ -361,7 +380,9 @@ def sib_filter(ctx: Ctx) -> List[Ob]:
     if not accs:
         raise AnalysisError("Node.filter._visit: deferred-removal list not recognised")
     names_i = {"rec": fi.name, "keep": keepv[0].value.id if keepv else "?", "acc": accs[0][1]["$acc"], "res": res_var(fi, li)}
-    names_c = {"rec": fc.name, "materialise": mats[0].name if mats else "?", "res": res_var(fc, lc)}
+    if not mats:
+        raise AnalysisError("Node._add_filtered: the parent materialiser (a nested function without parameters) was not found")
+    names_c = {"rec": fc.name, "materialise": mats[0].name, "res": res_var(fc, lc)}
     ti = _filter_table(ctx, fi, li, "inplace", names_i)
     tc = _filter_table(ctx, fc, lc, "copy", names_c)
     for v in VERDICTS:
